@@ -200,10 +200,15 @@ NOTES = (
     "All checks are solver-based (Kani/CBMC on the real source, regenerated from /repo on every run). "
     "Exit 2 means the machinery was inconclusive (timeout, memory, vacuity, non-reproducing counterexample) and is never a pass. "
     "Known genuine defects that are not repaired are listed in /verif/known_findings.json. "
-    "Partly claimed: C13 without its `sync:` clause and without whole-program runs (4 loop iterations of the real Cpu::run with scripted instructions); "
+    "Partly claimed (every restriction is repeated in the property's level_note and evidence): "
+    "C11/C12 only on two concrete ELF layout skeletons and enumerated stack sizes / argument strings with symbolic contents (symbolic layouts need symbolic-index DRAM stores); "
+    "C18 only the per-line effect of u8:/ioport: lines (parse_u8 / parse_ioport) - batching/order, cmd: lines, the split/dispatch inside Cpu::run and the outgoing framing are not decided by any check; "
+    "C13 without its `sync:` clause and without whole-program runs (4 loop iterations of the real Cpu::run with scripted instructions); "
     "C05/C06 nesting deeper than one call/exception and C10 queues longer than 3 follow by induction from single-step claims that hold from arbitrary pre-states "
-    "(an argument on paper, not a solver run); C02 DIVXU.W only for divisors < 16 (quick) / < 256 (thorough); C09 writes only at an enumerated boundary set "
-    "(symbolic write addresses bit-blast the 2 MiB DRAM array); C14 write() lengths <= 4 (8 in thorough); C15 does not cover control-channel lines (C18's code). "
+    "(an argument on paper, not a solver run); C02 DIVXU.W only for divisors < 16 (quick) / < 256 (thorough); C09 writes at an enumerated boundary set in the quick tier "
+    "(symbolic write addresses outside DRAM in the thorough tier; symbolic DRAM write addresses bit-blast the 2 MiB array); C14 write() lengths <= 4 (8 in thorough); "
+    "C15 does not cover control-channel lines. "
     "Quick tiers stay below 900 s each; C20's quick tier holds 140 of its 254 form harnesses (all in thorough). "
-    "33 independently seeded changes (seeded/) and the revert of each fix: commit (seeded/REVERTED_FIXES.md) are caught."
+    "44 independently seeded changes (seeded/, DESIGN.md section 6) were evaluated: 41 caught, 3 missed for stated reasons (C13c sync clause, C14b length > 256, C18a outgoing escaping); "
+    "the revert of each fix: commit is caught (seeded/REVERTED_FIXES.md)."
 )
